@@ -41,7 +41,15 @@ def gen_stats_case(rng, M, P, N, scalar="f64", weights=None, noise=0.05, quant=N
     synth_observations(rng, c, truth, noise=noise)
     if weights and weights != "none":
         w = [1.0] * N if weights == "unit" else [dyadic(rng, 0.5, 3, 2) for _ in range(N)]
+        if weights == "zeros":
+            # some samples masked out by a weight of exactly zero (they still count as observations: N is the sample count)
+            nz = max(1, min(N - (M + P) - 1, N // 4))
+            if N - nz > M + P:
+                for i in rng.sample(range(N), nz):
+                    w[i] = 0.0
         c["build"].append(["weights", [hx(v, scalar) for v in w]])
+        if rng.random() < 0.5:
+            c["build"].reverse()
     cfg = {} if patience is None else {"patience": patience}
     probs = probs if probs is not None else [0.5, 0.683, 0.9]
     c["ops"] = [["observe"], ["fit_stats", cfg, [hx(p, scalar) for p in probs]], ["observe"], ["tables"]]
